@@ -13,3 +13,6 @@ import Solvor.Path.Theorems
 #print axioms Solvor.Path.zsqrt2_order_embedding
 #print axioms Solvor.Path.grid_dist_exact_cert
 #print axioms Solvor.Path.grid_withinTol_iff
+#print axioms Solvor.Path.dijkstra_sound_any_weights
+#print axioms Solvor.Path.dijkstra_certifies
+#print axioms Solvor.Path.astar_certifies_partial
